@@ -205,6 +205,7 @@ def plan(tier, seed):
             shards.append(("seq", shape, F, c, nchunk))
     shards.append(("catalogue",))
     shards.append(("bigframe",))
+    shards.append(("callers",))
     for c in range(8):
         shards.append(("peaksearcher", c, 8, tier))
     for c in range(4):
@@ -447,7 +448,36 @@ def _run_sched(desc):
     return sh
 
 
+def _run_callers(desc):
+    """the kernels of this property that are declared threadsafe (the GIL is released while they run) as TWO CONCURRENT CALLERS on the
+    schedule-exploring runtime: pairs of different well-formed calls from the C20 call tables, every interleaving at the words both
+    touch within 2 preemptions; each call must leave in its arrays what it leaves when it runs alone"""
+    from vt.vrt import VRT, callers_interfere
+    from vt import sani
+    sh = Shard()
+    V = VRT()
+    # bloboverlaps allocates its link table with malloc: block addresses differ from execution to execution, so the conflict set of
+    # the explorer (a set of addresses) has no fixpoint; it is left to the stores-outside-arguments monitor of C20
+    for a, b in sani.threadsafe_pairs(('blobproperties', 'blob_moments'), ('blobproperties', 'blob_moments')):
+        bad, r = callers_interfere(V, a, b)
+        if r is None:
+            continue
+        case = {"kind": "callers", "calls": [a.describe(), b.describe()]}
+        for sched in (bad or [])[:1]:
+            sh.violation("concurrent-callers:%s-calls-interfere" % a.kernel, dict(case, schedule=sched), {"conflict_words": r["filter_size"]})
+        sh.states += r["nodes"]
+        sh.transitions += r["nodes"] - 1 + r["executions"]
+        sh.count("caller_pair_executions", r["total_executions"])
+        sh.evaluations += 1
+        sh.nontrivial += 1
+        sh.outcomes.add(("callers", a.kernel))
+    sh.sample(case, limit=1)
+    return sh
+
+
 def run_shard(desc):
+    if desc[0] == "callers":
+        return _run_callers(desc)
     if desc[0] == "seq":
         return _run_seq(desc)
     if desc[0] == "bigframe":
@@ -460,6 +490,10 @@ def run_shard(desc):
 
 
 def replay(case):
+    if case.get("kind") == "callers":
+        r = _run_callers(("callers",))
+        v = [x for x in r.violations if x["case"]["calls"] == case["calls"]]
+        return (not v), {"violations": v[:2]}
     from ImageD11 import labelimage
     sh = Shard()
     if case["kind"] == "seq":
